@@ -29,6 +29,7 @@ type World struct {
 	Files []string
 
 	sums    map[*ssa.Function]*Summary
+	prologueCheck func(*ssa.Function) (bool, string)
 	flowMem map[flowKey]*FlowResult
 }
 
